@@ -329,7 +329,8 @@ def run_shard(ctx):
         # 40%: one header directory lies outside the analysis root (its headers are read for their macros);
         # one case in 16: an include chain 20..100 levels deep (gcc allows 200; the code's recursion meets the interpreter's limit near 120)
         case = forest.gen(rng, outside=rng.random() < 0.4, deep=[20, 40, 70, 100][(i // 16) % 4] if i % 16 == 5 else 0,
-                          casepair=(i % 8 == 3), reguard=(i % 8 == 6), dirdecoy=(i % 4 == 1), updir=(i % 4 == 2))
+                          casepair=(i % 8 == 3), reguard=(i % 8 == 6), dirdecoy=(i % 4 == 1), updir=(i % 4 == 2),
+                          findable=(i % 4 != 0))      # (3 in 4: every header name is on every command's path; else ~60% are rejected by gcc)
         if ctx.mine(i):
             check_case(ctx, case, base, "R")
     shutil.rmtree(base, ignore_errors=True)
